@@ -37,6 +37,10 @@ var Requires = map[string][]string{
 	"C04": {"C06"},
 	"C05": {"C06"},
 	"C08": {"C01", "C02", "C03", "C04", "C05", "C06", "C09"},
+	// "when the thread-sync flag is requested and the load returns nil, every thread ... is subject to the filter": that a nil
+	// result means the kernel attached the filter at all is C09 (seed C10g: a sparse errno-to-error table with a nil hole
+	// at ENOMEM - the thread-sync load "succeeds" with no thread filtered)
+	"C10": {"C09"},
 	"C15": {"C07", "C09", "C08", "C14"},
 	// "the syscalls discovered in the binary": the set F the profiler starts from is what the extraction reports, and the
 	// list is made of the reported *names*; C16's "every reported syscall exists in the table under the reported name"
